@@ -119,41 +119,59 @@ def flatten(res, out):
             out.append(x)
 
 
+_ORDER = [0]
+
+
 def observe(axml, raw, entries):
     a = axml.ARSCParser(raw)
     rids = sorted({e["pid"] << 24 | e["tid"] << 16 | e["idx"] for e in entries})
-    obs = dict(stored=[], keys=[], packages=sorted(a.get_packages_names()), types=[], locales=[], resolved=[], app=[])
-    for rid in rids:
-        for cfg, ate in a.get_res_configs(rid):
-            k, v = ate_value(ate)
-            obs["stored"].append([rid, cfg_label(cfg), k, v])
-    seen = set()
-    for e in entries:
-        key = (e["pkg"], e["type"], e["key"])
-        if key in seen:
-            continue
-        seen.add(key)
-        r = a.get_res_id_by_key(e["pkg"], e["type"], e["key"])
-        obs["keys"].append([e["pkg"], e["type"], e["key"], -1 if r is None else r])
-    for p in obs["packages"]:
-        ts = set()
-        for loc in a.get_locales(p):
-            ts |= {t for t in a.get_types(p, loc) if t != "public"}
-        obs["types"].append([p, sorted(ts)])
-        obs["locales"].append([p, sorted("" if x == "\x00\x00" else x for x in a.get_locales(p))])
-    old = sys.getrecursionlimit()
-    sys.setrecursionlimit(600)
-    try:
+    obs = dict(stored=[], keys=[], packages=[], types=[], locales=[], resolved=[], app=[])
+
+    def q_stored():
         for rid in rids:
-            try:
-                res = a.get_resolved_res_configs(rid)
-                vals = []
-                flatten(res, vals)
-                obs["resolved"].append([rid, "ok", sorted(codes(v) for v in {str(x) for x in vals})])
-            except RecursionError:
-                obs["resolved"].append([rid, "recursion-depth-exceeded", []])
-    finally:
-        sys.setrecursionlimit(old)
+            for cfg, ate in a.get_res_configs(rid):
+                k, v = ate_value(ate)
+                obs["stored"].append([rid, cfg_label(cfg), k, v])
+
+    def q_keys():
+        seen = set()
+        for e in entries:
+            key = (e["pkg"], e["type"], e["key"])
+            if key in seen:
+                continue
+            seen.add(key)
+            r = a.get_res_id_by_key(e["pkg"], e["type"], e["key"])
+            obs["keys"].append([e["pkg"], e["type"], e["key"], -1 if r is None else r])
+
+    def q_names():
+        obs["packages"] = sorted(a.get_packages_names())
+        for p in obs["packages"]:
+            ts = set()
+            for loc in a.get_locales(p):
+                ts |= {t for t in a.get_types(p, loc) if t != "public"}
+            obs["types"].append([p, sorted(ts)])
+            obs["locales"].append([p, sorted("" if x == "\x00\x00" else x for x in a.get_locales(p))])
+
+    def q_resolved():
+        old = sys.getrecursionlimit()
+        sys.setrecursionlimit(600)
+        try:
+            for rid in rids:
+                try:
+                    res = a.get_resolved_res_configs(rid)
+                    vals = []
+                    flatten(res, vals)
+                    obs["resolved"].append([rid, "ok", sorted(codes(v) for v in {str(x) for x in vals})])
+                except RecursionError:
+                    obs["resolved"].append([rid, "recursion-depth-exceeded", []])
+        finally:
+            sys.setrecursionlimit(old)
+    # the parser fills its tables on demand: every accessor is the first one asked on some of the tables
+    qs = [q_stored, q_keys, q_names, q_resolved]
+    k = _ORDER[0] % 4
+    _ORDER[0] += 1
+    for q in qs[k:] + qs[:k]:
+        q()
     return obs
 
 
